@@ -79,8 +79,30 @@ def enc_list(idxs, cmds, marks):
 def random_cmds(rng, n, length):
     out = []
     measured = set()
+    deleted = set()
     for _ in range(length):
         r = rng.random()
+        if n - len(deleted) >= 2 and r > 0.96:
+            dm = rng.choice([m for m in range(n) if m not in deleted])
+            deleted.add(dm)
+            out.append(("del", [dm], None))
+            continue
+        if deleted:
+            # the front end rejects any later use of a deleted mode: draw again on the live modes only
+            live = [m for m in range(n) if m not in deleted]
+            c = random_cmds(rng, len(live), 1)
+            if c:
+                kind, modes, dep = c[0]
+                if kind == "gp" and (dep is None or dep >= len(live)):
+                    continue
+                modes = [live[m] for m in modes]
+                dep = live[dep] if (dep is not None) else None
+                if kind == "gp" and dep not in measured:
+                    continue
+                if kind in ("mx", "mf"):
+                    measured.update(modes)
+                out.append((kind, modes, dep))
+            continue
         if r < 0.3:
             out.append(("g1", [rng.randrange(n)], None))
         elif r < 0.55 and n >= 2:
